@@ -5,7 +5,7 @@ from .. import cases, oracles
 from . import _align_common as ac
 
 TITLE = "Candidate unitary alignments are exactly those under the n*delta_empty cut"
-DECIDING = ["M-CAND", "M-SESSION"]
+DECIDING = ["M-CAND", "M-SESSION", "M-CAND-CONCURRENT"]
 LEVEL = "exploration"
 RULE = ("(a) seeded random continua, 2-5 annotators, pooled dissimilarities; (b) continua engineered so that the "
         "candidate count sits on and around every growth boundary of the kernel's result buffers (10000, 15000, "
@@ -14,7 +14,9 @@ RULE = ("(a) seeded random continua, 2-5 annotators, pooled dissimilarities; (b)
         "exactly on the cut; (d) extreme delta_empty values (3e-7 .. 1e4); (e) sessions: candidates, an edit of the same "
         "continuum object (add_annotator, merge of a unit-less annotator, add, remove, a far unit added and removed), candidates "
         "again; (f) continua with open-ended units (end = inf: every pair dissimilarity with them is nan, and a nan disorder "
-        "is not 'at most' the cut).  Each result is compared with the full enumeration of all index tuples.  Every case "
+        "is not 'at most' the cut); (g) one dissimilarity object producing the candidates of 4 continua with different category sets "
+        "from 4 user threads at once; (h) 3-4 annotators with a cluster of short units near the origin and one 2^17 .. 2^21 away "
+        "(pair values of the order of 1e10 next to values of the order of 1).  Each result is compared with the full enumeration of all index tuples.  Every case "
         "runs in a default build or a NUMBA_BOUNDSCHECK=1 build (alternating shards; boundary cases in both). "
         "non-trivial = at least 2 candidates expected; distinct by SHA-1 of the case")
 ASSUMPTIONS = [
@@ -242,6 +244,30 @@ def run(ctx):
         ctx.begin_case(case)
         ctx.observe("family", "open-ended")
         check_case(ctx, case)
+    # (g) one dissimilarity object producing the candidates of several continua (different category sets) from several
+    # user threads at once
+    for _ in range(ctx.scale(5, 60)):
+        case = ac.gen_concurrent_candidates_case(rng)
+        ctx.begin_case(case)
+        ctx.observe("family", "concurrent-threads")
+        check_case(ctx, case)
+    # (h) far clusters: >= 3 annotators, short units near the origin and short units 2^17 .. 2^21 away (float32-exact): pairs
+    # across the clusters have dissimilarities of the order of 1e10 .. 1e12, next to pairs of the order of 1
+    for i in range(ctx.scale(25, 400)):
+        n = rng.choice([3, 3, 4])
+        far = float(rng.choice([2 ** 17, 2 ** 19, 2 ** 21]))
+        ann = {}
+        for a in cases.ANNOTATOR_NAMES[:n]:
+            us = set()
+            for _ in range(rng.randint(1, 4)):
+                base = far if rng.random() < 0.4 else 0.0
+                s0 = base + float(rng.randrange(0, 12))
+                us.add((s0, s0 + float(rng.choice([1, 1, 2, 3])), rng.choice(cases.LABELS_SMALL)))
+            ann[a] = [list(u) for u in sorted(us, key=cases.unit_key)]
+        case = {"continuum": {"ann": ann, "family": "far-clusters"}, "dissim": open_d[i % 2]}
+        ctx.begin_case(case)
+        ctx.observe("family", "far-clusters")
+        check_case(ctx, case)
     # (a) random
     dspecs = cases.gen_pool_specs(rng, ctx.scale(10, 24))
     for _ in range(ctx.scale(120, 5000)):
@@ -271,6 +297,8 @@ _orig_check = check_case
 
 
 def check_case(ctx, case):  # noqa: F811  (replay files of engineered cases store the recipe, not 50 000 units)
+    if case.get("concurrent") == "candidates":
+        return ac.check_concurrent_candidates_case(ctx, case, "M-CAND-CONCURRENT")
     if "session" in case:
         _, pool = ac.setup(ctx)
         continuum = cases.build_continuum(case["continuum"])
